@@ -15,7 +15,8 @@ EXPLANATION = (
     "exactly once on every path, update takes the predicted state and the observation, predict starts from the stored "
     "state or from initiate(observation), and the state stored and the box reported are the result of that update; "
     "(R07.7) the state -> box conversion reads mean[0,1,3,4] in place and drops the angle exactly when mean[2] == 0. "
-    "Equality with the textbook recurrence, SPD-ness and stationarity are numeric and NOT decided.")
+    "Equality with the textbook recurrence, SPD-ness and stationarity are numeric and NOT decided. "
+    "(R07.9) initiate / predict / update / distance have no data-dependent shortcut: every linear-algebra step runs exactly once on every path.")
 NOT_DECIDED = ["equality with the textbook Kalman recurrence for all trajectories (f32 linear algebra)",
                "symmetric positive-definiteness of the covariance", "stationary-object prediction",
                "squared-Mahalanobis value of distance()"]
@@ -268,6 +269,32 @@ def alternatives(e):
     return [e]
 
 
+def no_shortcut_rule(ctx, R):
+    """R07.9 — the recurrences have no data-dependent shortcut: every linear-algebra operation of initiate / predict /
+    update / distance runs exactly once on every path to the return (an early `return *state` skips the covariance
+    update)."""
+    from lib import count_on_paths
+    n = 0
+    for flt in (BOX, PT):
+        for m in ('initiate', 'predict', 'update', 'distance'):
+            b = ctx.anchor(R, flt + '::' + m)
+            if b is None:
+                continue
+            rets = b.returns()
+            bad = []
+            ops = [c for c in b.find_calls() if c.name in VOC]
+            for c in ops:
+                r = count_on_paths(b, 0, rets, [c.bb])
+                if r != (1, 1):
+                    bad.append('%s at %s runs %s times' % (c.name, c.ln, r))
+            n += 1
+            ctx.check(bool(ops) and not bad, R, b, '%s:%s:every-operation-on-every-path' % (flt.rsplit('::', 1)[-1], m),
+                      '%d operations, each exactly once on every path' % len(ops),
+                      '%s::%s can return without performing all of its linear-algebra steps (%s): a shortcut path '
+                      'leaves mean or covariance un-updated' % (flt.rsplit('::', 1)[-1], m, '; '.join(bad[:4]) or 'no operations found'))
+    return n
+
+
 def sequence_rule(ctx, R):
     """R07.6 — the per-observation step of every tracker: (initiate when there is no state) -> predict -> update,
     the state stored and the box reported are both the result of that update."""
@@ -432,6 +459,8 @@ def run(ctx):
     ctx.floor('R07.4', weights_rule(ctx, 'R07.4'), 9)
     ctx.rule('R07.6', 'make_prediction: (initiate) -> predict -> update exactly once each; stored and reported state = update result')
     ctx.floor('R07.6', sequence_rule(ctx, 'R07.6'), 8)
+    ctx.rule('R07.9', 'no data-dependent shortcut in initiate / predict / update / distance')
+    ctx.floor('R07.9', no_shortcut_rule(ctx, 'R07.9'), 8)
     ctx.rule('R07.7', 'state -> box conversion: components in place, angle absent exactly when it equals 0')
     ctx.floor('R07.7', angle_option_rule(ctx, 'R07.7'), 6)
 
